@@ -122,9 +122,9 @@ Print Assumptions disrupting_counts_all_deleting_refuted.
    state in which the command was last validated. *)
 Theorem round_within_budget : forall (sid : Type) (hit : sid -> Z -> Prop) (next : sid -> Z -> option Z),
   next_least sid hit next ->
-  forall (s : sys sid) (m : method) (cs : list cand) (ch : choice)
+  forall (s : sys sid) (m : method) (cs : list cand) (ch : choice) (vok : bool)
          (b1 : list (env sid)) (c1 : list cand) (b2 : list (env sid)) (c2 : list cand),
-    let '(sel, sv) := disrupt_sel sid next s m cs ch b1 c1 b2 c2 in
+    let '(sel, sv) := disrupt_sel sid next s m cs ch vok b1 c1 b2 c2 in
     budgets_ok sid sv -> round_holds sid hit sv (method_reason m) sel.
 Proof. exact round_within_budget_l. Qed.
 Print Assumptions round_within_budget.
@@ -187,8 +187,8 @@ Example round_selects :
   let s := mkSys 7200 [mkPool 1 [mkBudget None (NInt 3) SNil None] false 0 None]
                  [nd 1 true; nd 2 true; nd 3 true; nd 4 true; nd 5 false] [] in
   let cs := [mkCand 1 1 true false true; mkCand 2 1 true false true; mkCand 3 1 true false true; mkCand 4 1 true false true] in
-  map c_node (fst (disrupt_sel unit hourly_next s MEmptiness cs (ChK 0) [] cs [] cs)) = [1; 2] /\
+  map c_node (fst (disrupt_sel unit hourly_next s MEmptiness cs (ChK 0) true [] cs [] cs)) = [1; 2] /\
   (* a second node goes not-ready during the validation delay: one candidate is dropped *)
-  map c_node (fst (disrupt_sel unit hourly_next s MEmptiness cs (ChK 0) [EReady 4 false]
+  map c_node (fst (disrupt_sel unit hourly_next s MEmptiness cs (ChK 0) true [EReady 4 false]
                                [mkCand 1 1 true false true; mkCand 2 1 true false true; mkCand 3 1 true false true] [] cs)) = [1].
 Proof. vm_compute. split; reflexivity. Qed.
